@@ -95,7 +95,7 @@ FUNCTIONS = {
         'prove(implies(forall_ref(o, TimerEntry, implies(o in self._queue.g_mem, timeout_args.deadline <= o.deadline)), self._event.flag), "wakes-worker-for-new-earliest")',
       ]},
     ],
-    props=['C10'],
+    props=['C10', 'C01', 'C12'],
   ),
 
   'TimerQueue.Schedule.cancel': dict(
